@@ -210,6 +210,13 @@ def writeForever():
       # Avoid churning CPU when there are no metrics are in the cache
       time.sleep(1)
 
+  # The reactor is shutting down: datapoints may have been cached since the last
+  # pass (e.g. while we were sleeping), write them out before the thread exits.
+  try:
+    writeCachedDataPoints()
+  except Exception:
+    log.err()
+
 
 def writeTags():
   while True:
